@@ -163,4 +163,8 @@ EmitCall == (Len(hist) > 0 /\ hist[Len(hist)].op = "call") => Emit(hist)
 \* simulation: whole random behaviours (states that the correct design identifies are reached by many routes, and a
 \* wrong implementation may tell the routes apart)
 EmitFull == Len(hist) = MaxOps => Emit(hist)
+\* the stuttering step Done prints the behaviour of the walk that was actually taken (an invariant is also evaluated
+\* on every successor the random walk does not choose)
+Done == Len(hist) = MaxOps /\ Emit(hist) /\ UNCHANGED vars
+SimSpec == Init /\ [][Next \/ Done]_vars
 =============================================================================
